@@ -11,7 +11,7 @@ from collections.abc import Callable
 from contextlib import suppress
 from typing import TYPE_CHECKING, Any, TypeVar
 
-from arpeggio import EOF, NoMatch, Parser, Sequence, Terminal
+from arpeggio import EOF, NoMatch, NonTerminal, Parser, Sequence, Terminal
 
 from textx.const import (
     MULT_ASSIGN_ERROR,
@@ -67,6 +67,24 @@ def textx_isinstance(obj: Any, obj_cls: type[Any], _visited: Any = None) -> bool
             if id(cls) not in _visited and textx_isinstance(obj, cls, _visited):
                 return True
     return False
+
+
+def _match_end(node):
+    """
+    The offset right after the last character the node's rule matched. A
+    repetition with a separator that matched one more separator, but no
+    element after it, gives the separator back to the input while its node
+    stays the last child of the repetition: it is not a part of the match.
+    """
+    while isinstance(node, NonTerminal) and len(node) > 0:
+        last = node[-1]
+        separator = getattr(node.rule, "sep", None)
+        if separator is not None and last.rule is separator:
+            if len(node) < 2:
+                break
+            last = node[-2]
+        node = last
+    return node.position_end
 
 
 def _own_attr(obj, name):
@@ -759,7 +777,7 @@ def parse_tree_to_objgraph(
             obj_attrs = inst
 
             inst._tx_position = node.position
-            inst._tx_position_end = node.position_end
+            inst._tx_position_end = _match_end(node)
 
             # Push real obj. and dummy attr obj on the instance stack
             parser._inst_stack.append((inst, obj_attrs))
